@@ -13,7 +13,7 @@ import (
 var ghostGroups = map[string][]string{
 	"ghost_fsw":  {"$fsw.n", "$fsw.path", "$fsw.data"},
 	"ghost_out":  {"$out.n", "$out.data"},
-	"ghost_warn": {"$warn.n", "$warn.text"},
+	"ghost_warn": {"$warn.n", "$warn.text", "$warn.sink"},
 	"ghost_pf":   {"$pf.n", "$pf.name"},
 }
 
@@ -21,7 +21,7 @@ var ghostSorts = map[string]string{
 	"$it.next": "Int", "$it.stopped": "Bool",
 	"$fsw.n": "Int", "$fsw.path": "(Array Int String)", "$fsw.data": "(Array Int Slice)",
 	"$out.n": "Int", "$out.data": "(Array Int String)",
-	"$warn.n": "Int", "$warn.text": "(Array Int String)",
+	"$warn.n": "Int", "$warn.text": "(Array Int String)", "$warn.sink": "(Array Int Int)",
 	"$pf.n": "Int", "$pf.name": "(Array Int String)",
 }
 
